@@ -63,7 +63,7 @@ impl<const N: usize> RingModel<N> for AtomicMove<u32, N> {
 }
 
 #[cfg(kani)]
-mod proofs {
+pub(crate) mod proofs {
     use super::*;
 
     fn any_state<const N: usize>() -> RingState {
